@@ -270,6 +270,9 @@ fn external_choices(edges: &[(u8, u8)], any_massive: bool) -> Vec<Vec<u8>> {
     let mut res: Vec<Vec<u8>> = vec![];
     if any_massive {
         res.push(vec![]);
+        // a single declared external: momentum conservation forces p = 0 (non-generic: the V_tr clauses do not apply, clause
+        // G3), but U, F = U Σ m² x, the momenta and the routing independence are still decided
+        res.push(vec![vs[0]]);
     }
     let n = vs.len();
     if n >= 2 {
